@@ -247,6 +247,10 @@ type printStyle struct {
 	esc      int          // per-character chance (percent) of a \u escape
 	lead     bool         // white space before the first token
 	labelEsc bool         // spell the first element of the top-level array (if a string) with an escape
+	bad      int          // per-string chance (percent) of a raw invalid UTF-8 byte sequence at a random position
+	noLabel  bool         // bad: leave the first element of the top-level array alone
+	// out: number of strings that received an invalid byte sequence
+	injected int
 	// out: whether the first element of the top-level array was spelled with a backslash
 	labelEscaped bool
 }
@@ -259,10 +263,25 @@ func (p *printStyle) gap(b *bytes.Buffer) {
 	}
 }
 
+// byte sequences that are not UTF-8: lone 0xff, a lead byte without continuation, a
+// truncated three-byte form, a UTF-8 encoded surrogate, a code point above
+// U+10FFFF, an over-long form, a lone continuation byte
+var badUTF8 = []string{"\xff", "\xc3", "\xe2\x82", "\xed\xa0\x80", "\xf4\x90\x80\x80", "\xc0\xaf", "\x80"}
+
 func (p *printStyle) str(b *bytes.Buffer, s string, plain bool, force bool) (escaped bool) {
 	b.WriteByte('"')
 	first := true
+	badAt, pos := -1, 0
+	if p.r != nil && p.bad > 0 && p.r.Chance(p.bad) {
+		badAt = p.r.Intn(utf8.RuneCountInString(s) + 1)
+		p.injected++
+	}
 	for _, ru := range s { // s is valid UTF-8 in every generated text
+		if pos == badAt {
+			b.WriteString(common.Pick(p.r, badUTF8))
+			badAt = -1
+		}
+		pos++
 		useU := false
 		if force && first {
 			useU = true
@@ -294,6 +313,9 @@ func (p *printStyle) str(b *bytes.Buffer, s string, plain bool, force bool) (esc
 		default:
 			b.WriteRune(ru)
 		}
+	}
+	if badAt >= 0 { // at the end of the string
+		b.WriteString(common.Pick(p.r, badUTF8))
 	}
 	b.WriteByte('"')
 	return
@@ -360,7 +382,12 @@ func (p *printStyle) value(b *bytes.Buffer, j JV, top bool) {
 			}
 			p.gap(b)
 			if top && i == 0 && x.T == 's' {
+				bad := p.bad
+				if p.noLabel {
+					p.bad = 0
+				}
 				p.labelEscaped = p.str(b, x.S, !p.labelEsc, p.labelEsc)
+				p.bad = bad
 			} else {
 				p.value(b, x, false)
 			}
